@@ -94,6 +94,54 @@ theorem expand_stale (g₁ g₂ : Nat) (t : Stmt) : t.clean = true → (t.expand
 theorem stale_heals (g₁ g₂ : Nat) (t : Stmt) (h : t.clean = true) : ((t.expand g₁).expand g₂).rollback = t := by
   rw [expand_stale g₁ g₂ t h]; exact rollback_expand g₁ t h
 
+/-! ### a call aborted while the tree is being rewritten (F59) -/
+
+mutual
+  /-- `t'` is `t` with *some* of its expandable statements overridden: the state of the tree when an
+      exception stops the builders part of the way (an inline reference that raises while the
+      expanded model is analysed, a list the user's callback broke ...) -/
+  inductive PartExp : Stmt → Stmt → Prop where
+    | atom (n : Nat) : PartExp (.atom n) (.atom n)
+    | kept (b : Stmts) : PartExp (.expandable b) (.expandable b)
+    | done (b : Stmts) (g : Nat) : PartExp (.expandable b) (.override (.expandable b) g 1)
+    | scope (b b' : Stmts) : PartExpL b b' → PartExp (.scope b) (.scope b')
+  inductive PartExpL : Stmts → Stmts → Prop where
+    | nil : PartExpL .nil .nil
+    | cons (s s' : Stmt) (r r' : Stmts) : PartExp s s' → PartExpL r r' → PartExpL (.cons s r) (.cons s' r')
+end
+
+/-- **The rollback of the `finally` clause restores the tree from every intermediate state of the
+    rewrite**, not only from the completed one: wherever the builders were stopped, one rollback
+    walk gives back the tree the class declared. -/
+theorem rollback_partial (t t' : Stmt) (h : PartExp t t') : t'.rollback = t := by
+  apply PartExp.rec
+    (motive_1 := fun t t' _ => t'.rollback = t)
+    (motive_2 := fun l l' _ => l'.rollback = l)
+    (t := h)
+  · intro n; rfl
+  · intro b; rfl
+  · intro b g; simp [Stmt.rollback]
+  · intro b b' _ ih; simp [Stmt.rollback, ih]
+  · rfl
+  · intro s s' r r' _ _ ihs ihr; simp [Stmts.rollback, ihs, ihr]
+
+/-- the completed rewrite of a clean tree is one of those states (so `rollback_expand` is the special
+    case), and so is the untouched tree -/
+theorem partExp_expand (g : Nat) (t : Stmt) : t.clean = true → PartExp t (t.expand g) := by
+  apply Stmt.rec
+    (motive_1 := fun t => t.clean = true → PartExp t (t.expand g))
+    (motive_2 := fun l => l.clean = true → PartExpL l (l.expand g))
+  · intro n _; exact .atom n
+  · intro b _ _; exact .done b g
+  · intro b ih h
+    simp only [Stmt.clean] at h
+    exact .scope _ _ (ih h)
+  · intro o n d _ h; simp [Stmt.clean] at h
+  · intro _; exact .nil
+  · intro s r ihs ihr h
+    simp only [Stmts.clean, Bool.and_eq_true] at h
+    exact .cons _ _ _ _ (ihs h.1) (ihr h.2)
+
 /-- hypotheses are satisfiable, and the rewrite is not the identity: a block holding a foreach next
     to an ordinary statement inside an if-branch -/
 example :
